@@ -10,7 +10,8 @@ def observable(script, code, environment):
     from pedal.command_line.modes import Bundle
     from pedal.core.submission import Submission
     config = argparse.Namespace(threaded=False, resolver='resolve')
-    sub = Submission(files={'answer.py': code}, main_file='answer.py', main_code=code, instructor_file='instructor.py')
+    files = dict(code) if isinstance(code, dict) else {'answer.py': code}      # a submission may consist of several files
+    sub = Submission(files=files, main_file='answer.py', main_code=files['answer.py'], instructor_file='instructor.py')
     bundle = Bundle(config, script, sub)
     bundle.environment = environment
     bundle.run_ics_bundle()
